@@ -292,16 +292,6 @@ Proof.
   cbn [items set_membytes set_masks set_items]. intros x [<-|I]; auto.
 Qed.
 
-Lemma reg_flags_unmarked flags size (f : option fin) : hasflag flags MARK_BIT = false ->
-  hasflag (match f with Some _ => setflag (if size <? WORD_SIZE then setflag flags LEAF_BIT else flags) FINALIZE_BIT
-                      | None => if size <? WORD_SIZE then setflag flags LEAF_BIT else flags end) MARK_BIT = false.
-Proof.
-  intros Mf. pose proof MARK_nonneg. pose proof LEAF_nonneg. pose proof FINALIZE_nonneg.
-  assert (M1 : hasflag (if size <? WORD_SIZE then setflag flags LEAF_BIT else flags) MARK_BIT = false).
-  { destruct (size <? WORD_SIZE); auto. rewrite hasflag_setflag_other; auto. apply MARK_not_LEAF. }
-  destruct f; auto. rewrite hasflag_setflag_other; auto. apply MARK_not_FINALIZE.
-Qed.
-
 Lemma Full_register stk p size flags f ws decl g :
   (p =? 0) = false -> hasflag flags MARK_BIT = false ->
   Inv g -> FDI g -> FF (items g) ->
@@ -318,7 +308,7 @@ Proof.
     assert (I0 : Inv G0) by (apply Inv_reg_mid; auto; now apply reg_flags_unmarked).
     assert (F0 : FF (items G0)).
     { subst G0. cbn [items set_membytes set_masks set_items]. apply FF_cons; auto. cbn [ifin iflags].
-      intros N. destruct f; [|congruence]. apply hasflag_setflag_same, FINALIZE_nonneg. }
+      intros N. unfold reg_flags. destruct f; [|congruence]. apply hasflag_setflag_same, FINALIZE_nonneg. }
     assert (C0 : CI G0).
     { intros E k Hk. change (nextfid G0) with (nextfid g) in Hk. specialize (HC E k Hk).
       assert (T : tot G0 k = tot g k + fc f k).
@@ -453,7 +443,7 @@ Proof.
         intros X. apply H2. specialize (LE k). pose proof (lcnt_nonneg (log g) k). pose proof (dcnt_nonneg (dropped g) k). unfold tot. lia.
       * intros E k Hk. rewrite T1. assert (1 <= tot g k) by (apply C; auto). lia.
   - (* dealloc *)
-    destruct (lookup ptr (items g)); [|bad]. unfold gc_dealloc in *.
+    destruct (lookup ptr (items g)); [|bad]. destruct (dealloc_ok _); [|bad]. unfold gc_dealloc in *.
     pose proof (Full_unregister true ptr g FU) as (I1 & D1 & F1 & C1).
     destruct (ptr =? 0); [split; auto|].
     split; [auto|split; [auto|split; [exact F1|]]].
